@@ -415,31 +415,66 @@ theorem npc_candidate_spec (mr : ℕ → Bool) (n : ℤ) (hn : 997 ≤ n) (hnore
 example : npcModel isPrime 100 1000 = some 1009 ∧ npcModel isPrime 100 1327 = some 1361 ∧
     npcModel (fun c => c == 1003 || isPrime c) 100 1000 = some 1009 := by decide +kernel
 
-/-- **mpz_nextprime** with exact tests: if both Miller-Rabin stages accept exactly the primes, the result is the least
-    prime > n (n ≥ 997; below, the table path above).  -/
-theorem nextprime_spec_given_exact_tests (mr2 mr23 : ℕ → Bool) (n : ℤ) (hn : 997 ≤ n)
-    (h2 : ∀ c, mr2 c = true ↔ c.Prime) (h23 : ∀ c, mr23 c = true ↔ c.Prime) (r : ℕ)
+/-- the repaired loop of mpz_nextprime: started at a candidate x ≥ 997 it returns r ≥ x accepted by the 23-round test,
+    with no prime in [x, r), given only that neither test ever rejects a prime -/
+theorem nextprimeLoop_spec (mr2 mr23 : ℕ → Bool) (h2 : ∀ c, c.Prime → mr2 c = true) (h23 : ∀ c, c.Prime → mr23 c = true) :
+    ∀ fuel x r, 997 ≤ x → nextprimeLoop mr2 mr23 fuel x = some r →
+      x ≤ r ∧ mr23 r = true ∧ ∀ j, x ≤ j → j < r → ¬ j.Prime := by
+  intro fuel
+  induction fuel with
+  | zero => intro x r _ h; simp [nextprimeLoop] at h
+  | succ f ih =>
+    intro x r hx h
+    simp only [nextprimeLoop] at h
+    by_cases hm : mr23 x = true
+    · simp only [hm, if_true, Option.some.injEq] at h
+      subst h; exact ⟨Nat.le_refl _, hm, fun j h1 h2 => by omega⟩
+    · simp only [hm] at h
+      have hxnp : ¬ x.Prime := fun hp => hm (h23 x hp)
+      cases hc : npcModel mr2 4000 ((x : ℕ) : ℤ) with
+      | none => simp [hc] at h
+      | some y =>
+        replace h : nextprimeLoop mr2 mr23 f y = some r := by simpa [hc] using h
+        obtain ⟨c1, _, _, _, c5, _⟩ := npc_candidate_spec mr2 ((x : ℕ) : ℤ) (by omega) h2 4000 y hc
+        have hxy : x < y := by omega
+        obtain ⟨i1, i2, i3⟩ := ih y r (by omega) h
+        refine ⟨by omega, i2, fun j hj1 hj2 hp => ?_⟩
+        by_cases hjx : j = x
+        · subst hjx; exact hxnp hp
+        · by_cases hjy : j < y
+          · exact c5 j (by omega) hjy hp
+          · exact i3 j (by omega) hj2 hp
+
+/-- **mpz_nextprime skips no prime** (n ≥ 997; below, the table path): whatever the random bases, given only that
+    Miller-Rabin never rejects a prime (theorem `miller_rabin_never_rejects_prime`), the result r exceeds n and no prime
+    lies strictly between; r has passed the 23-round test when r ≥ 10^6 and the 2-round test otherwise; if the tests
+    accept only primes, r is the least prime > n.  (Before the repair af324ce of mpz/nextprime.c this was false: the
+    loop added 2 before asking for the next candidate — found with this model, see corpus/C16/nextprime_skip.ops.) -/
+theorem nextprime_no_prime_skipped (mr2 mr23 : ℕ → Bool) (n : ℤ) (hn : 997 ≤ n)
+    (h2 : ∀ c, c.Prime → mr2 c = true) (h23 : ∀ c, c.Prime → mr23 c = true) (r : ℕ)
     (h : nextprimeModel mr2 mr23 n = some r) :
-    r.Prime ∧ n < r ∧ ∀ j : ℕ, n < j → j < r → ¬ j.Prime := by
+    n < r ∧ (∀ j : ℕ, n < j → j < r → ¬ j.Prime) ∧ (if r ≥ 1000000 then mr23 r = true else mr2 r = true) ∧
+    ((∀ c, mr2 c = true → c.Prime) → (∀ c, mr23 c = true → c.Prime) → r.Prime) := by
   unfold nextprimeModel at h
   cases hc : npcModel mr2 4000 n with
   | none => simp [hc] at h
   | some x =>
-    obtain ⟨c1, _, c3, _, c5, c6⟩ := npc_candidate_spec mr2 n hn (fun c hp => (h2 c).2 hp) 4000 x hc
-    have hx : x.Prime := c6 (fun c hcc => (h2 c).1 hcc)
+    obtain ⟨c1, _, c3, _, c5, c6⟩ := npc_candidate_spec mr2 n hn h2 4000 x hc
     simp only [hc] at h
+    have hx997 : 997 ≤ x := by omega
     by_cases hbig : x ≥ 1000000
     · simp only [hbig, if_true] at h
-      have : mr23 x = true := (h23 x).2 hx
-      simp [nextprimeLoop, this] at h
-      subst h; exact ⟨hx, c1, c5⟩
+      obtain ⟨l1, l2, l3⟩ := nextprimeLoop_spec mr2 mr23 h2 h23 100 x r hx997 h
+      refine ⟨by omega, fun j hj1 hj2 hp => ?_, by simp [show r ≥ 1000000 by omega, l2], fun _ s23 => s23 r l2⟩
+      by_cases hjx : j < x
+      · exact c5 j hj1 hjx hp
+      · exact l3 j (by omega) hj2 hp
     · simp only [hbig, if_false, Option.some.injEq] at h
-      subst h; exact ⟨hx, c1, c5⟩
-/-- …but NOT with the tests as they are (FINDING): when a composite candidate x passes the two rounds of
-    mpz_next_prime_candidate and fails the 23 rounds of mpz_nextprime, the loop `mpz_add_ui (x, x, 2);
-    mpz_next_prime_candidate (x, x, rnd)` never examines x + 2.  With x = 6794614661 = 47591·142771 (accepted by the real
-    library's first stage) the model, like the library, returns 6794614691 and skips the prime 6794614663. -/
-example : nextprimeModel (fun c => c == 6794614661 || isPrime c) isPrime 6794614660 = some 6794614691 ∧
+      subst h
+      exact ⟨c1, c5, by simp [hbig, c3], fun s2 _ => c6 s2⟩
+/-- the input of the finding, on the repaired loop: the composite 6794614661 = 47591·142771 passes the first stage, is
+    rejected by the second, and the next candidate 6794614663 (a prime) is now examined -/
+example : nextprimeModel (fun c => c == 6794614661 || isPrime c) isPrime 6794614660 = some 6794614663 ∧
     isPrime 6794614663 = true ∧ isPrime 6794614661 = false ∧ 47591 * 142771 = 6794614661 := by decide +kernel
 
 /-! ## The users read the real bit array -/
